@@ -244,14 +244,18 @@ func c17() []*Ob {
 								walk(x.X, d+1)
 							case *ssa.UnOp:
 								if e, ok := x.X.(*ssa.IndexAddr); ok && x.Op == token.MUL {
-									if (ValueIsField(e.X, "frac.metaDataCollector", "tokensInDocs") || TypeStr(e.X.Type()) == "[]uint32") && SameValue(e.Index, ia.Index) && e.X != ia.X {
+									fromColumn := c.P.DerivesFromIP(e.X, func(w ssa.Value) bool { return ValueIsField(w, "frac.metaDataCollector", "tokensInDocs") })
+									if fromColumn && SameValue(e.Index, ia.Index) && e.X != ia.X {
 										includesOwn = true
 									}
 								}
 							}
 						}
 						walk(st.Val, 0)
-						if includesOwn {
+						sumsColumn := c.P.DerivesFromIP(st.Val, func(w ssa.Value) bool { return ValueIsField(w, "frac.metaDataCollector", "tokensInDocs") })
+						if !sumsColumn {
+							c.Violation("prov:Filter:offsets-from-column", st.Pos(), "the token offsets are not summed up from the collector's tokensInDocs column (the per-document token counts of the bulk as it arrived): every kept document gets the wrong window of tokens")
+						} else if includesOwn {
 							c.Violation("prov:Filter:exclusive-offsets", st.Pos(), "the token offset stored for document i includes document i's own token count: kept documents whose token count differs from their predecessors get a shifted window of tokens (their own tokens are lost, a neighbour's are attached)")
 						} else {
 							c.Site(st.Pos(), "token offset of document i is the sum of the counts of the documents before it")
